@@ -55,7 +55,7 @@ def c13(tier):
     # a larger compile-only population for the totality clause (no executions, one level each)
     # (the same seeded population as C01, so whatever reaches the optimiser there reaches it here)
     extra_per = {"rnd": 3000, "S": 6000, "M": 2000, "N": 500, "L": 1500, "G": 1500} if tier == "quick" else \
-                {"rnd": 60000, "S": 150000, "M": 40000, "N": 10000, "L": 40000, "G": 30000}
+                {"rnd": 15000, "S": 40000, "M": 10000, "N": 3000, "L": 10000, "G": 8000}
     extra = population(hv, tier, sd, list(extra_per), extra_per)
     for i, c in enumerate(extra):
         c["id"] = "x" + c["id"]
